@@ -71,12 +71,16 @@ def _search(pid, oracles, theorems, text, technique):
     }
 
 _search("C04", ["c04"], [], "", "")
-_search("C05", ["c05"], [], "", "")
+_search("C05", ["c05"], [("GdslModel.Props.C05", "G.Dfs." + t) for t in ["path_sound", "path_simple", "path_complete", "path_iff", "search_iff", "fuel_enough"]],
+        "Machine-checked proof (Lean 4) about the model of the recursive depth-first loops: search_path returns a walk of existing accepted edges from the root to the target that repeats no node, returns None only if the target is unreachable in the accepted graph (iff), search agrees, and fuel > |nodes| never runs out; for all graphs, filters and sizes. The model (order of exec/visited/push/target test, backtrack_edge_tree) is tied to all four flavours by exact correspondence on every connect sequence on <=3 nodes x roots x targets x reject sets and random graphs up to 40 nodes; the statement is also evaluated on the real paths by an independent reachability/simple-path oracle.",
+        "Lean 4 proof (closure invariant, discovery-tree backtracking) + model/implementation correspondence + path oracle")
 _search("C06", ["c06"], [], "", "")
 _search("C07", ["c07"], [], "", "")
 _search("C08", ["c08"], [], "", "")
 _search("C09", ["c09"], [], "", "")
-_search("C10", ["c10"], [], "", "")
+_search("C10", ["c10"], [("GdslModel.Props.C10", "G.Order." + t) for t in ["nodes_exactly_reach", "pre_is_dfs_discovery", "post_is_dfs_finishing", "post_edge_property", "edges_one_per_node", "fuel_enough"]],
+        "Machine-checked proof (Lean 4) that the model's preorder/postorder list exactly the nodes reachable through accepted edges once (root first/last), are the discovery resp. finishing sequence of a run of the non-deterministic depth-first relation Dfs, satisfy the per-edge postorder property, and that search_edges has one existing accepted entering edge per non-root node in the same order; for all graphs and filters. Model tied to the four flavours by exact correspondence (enumerated graphs <=3 nodes, random to 40) and an exact 'some DFS produces this order' oracle on the real output.",
+        "Lean 4 proof (ghost stack/finished invariant; refinement to a non-deterministic DFS relation) + model/implementation correspondence + exact DFS-order oracle")
 
 CONT_RULE = ("enumerated small inputs (all digraphs on <=3/4 nodes for scc; all connect sequences on <=3 nodes for serde; all single structural "
              "mutations of seed documents; all container histories over a small alphabet) plus seeded random ones; every order-dependent call is "
